@@ -396,6 +396,13 @@ static void ProcessFile(char const* pSrcName, int Index) {
                 ChkIO(SrcName);
             }
 
+            /* the part list of the first pass must know this record as a
+               relocatable one */
+
+            if (!PartRun || !PartRun->RelocInfo) {
+                FormatError(SrcName, getmessage(Num_FormatRelocInfoMissing));
+            }
+
             UndefFlag = False;
             for (z = 0; z < PartRun->RelocInfo->RelocCount; z++) {
                 PReloc = PartRun->RelocInfo->RelocEntries + z;
